@@ -733,19 +733,47 @@ pub fn run_matrix(cases_path: &str, out_path: &str) {
 		for k in 0..300usize {
 			for tail in ["\u{e9}", "\u{20ac}", "\u{1f600}", "\u{e9}\u{e9}\u{e9}"] {
 				let s = format!("{}{}", "a".repeat(k), tail);
-				let errs: Vec<Option<Error>> = vec![
-					rcgen::string::PrintableString::try_from(s.clone()).err(),
-					rcgen::string::Ia5String::try_from(s.clone()).err(),
-					rcgen::string::TeletexString::try_from(s.clone()).err(),
-					rcgen::string::BmpString::try_from(s.clone()).err(),
-					{
-						let mut p = CertificateParams::default();
-						p.crl_distribution_points = vec![CrlDistributionPoint { uris: vec![s.clone()] }];
-						p.self_signed(&key.kp).err()
-					},
-					CertificateParams::new(vec![s.clone()]).err(),
+				// every position that is checked as an IA5String only when the certificate / CRL is written
+				let in_params = |f: &dyn Fn(&mut CertificateParams)| {
+					let mut p = CertificateParams::default();
+					f(&mut p);
+					p.self_signed(&key.kp).err()
+				};
+				let makers: Vec<Box<dyn Fn() -> Option<Error> + '_>> = vec![
+					Box::new(|| rcgen::string::PrintableString::try_from(s.clone()).err()),
+					Box::new(|| rcgen::string::Ia5String::try_from(s.clone()).err()),
+					Box::new(|| rcgen::string::TeletexString::try_from(s.clone()).err()),
+					Box::new(|| rcgen::string::BmpString::try_from(s.clone()).err()),
+					Box::new(|| in_params(&|p| p.crl_distribution_points = vec![CrlDistributionPoint { uris: vec![s.clone()] }])),
+					Box::new(|| in_params(&|p| p.name_constraints = Some(NameConstraints { permitted_subtrees: vec![GeneralSubtree::DnsName(s.clone())], excluded_subtrees: vec![] }))),
+					Box::new(|| in_params(&|p| p.name_constraints = Some(NameConstraints { permitted_subtrees: vec![], excluded_subtrees: vec![GeneralSubtree::Rfc822Name(s.clone())] }))),
+					Box::new(|| {
+						CertificateRevocationListParams {
+							this_update: date_time_ymd(2024, 1, 1),
+							next_update: date_time_ymd(2024, 2, 1),
+							crl_number: SerialNumber::from_slice(&[1]),
+							issuing_distribution_point: Some(CrlIssuingDistributionPoint { distribution_point: CrlDistributionPoint { uris: vec![s.clone()] }, scope: None }),
+							revoked_certs: vec![],
+							key_identifier_method: KeyIdMethod::PreSpecified(vec![1]),
+						}
+						.signed_by(&issuer, &key.kp)
+						.err()
+					}),
+					Box::new(|| CertificateParams::new(vec![s.clone()]).err()),
 				];
-				for e in errs.into_iter().flatten() {
+				let mut errs: Vec<Error> = Vec::new();
+				for mk in &makers {
+					tried += 1;
+					match guarded_any(|| mk()) {
+						Ok(Some(e)) => errs.push(e),
+						Ok(None) => {},
+						Err(m) => {
+							panics += 1;
+							first.get_or_insert(format!("making the error, k={} tail={:?}: {}", k, tail, m));
+						},
+					}
+				}
+				for e in errs.into_iter() {
 					tried += 1;
 					if let Err(m) = guarded_any(|| format!("{} {:?}", e, e).len()) {
 						panics += 1;
